@@ -78,7 +78,9 @@ class Analyzer(cfg.GraphVisitor):
         fn_scope = anno.getanno(fn_ast_node, annos.NodeAnno.ARGS_AND_BODY_SCOPE)
         # Any closure of a reaching function definition is conservatively
         # considered live.
-        live_in |= (fn_scope.read - fn_scope.bound)
+        # Names declared nonlocal are bound in the function's scope, but
+        # they refer to variables of an enclosing function.
+        live_in |= (fn_scope.read - (fn_scope.bound - fn_scope.nonlocals))
 
     else:
       assert self.can_ignore(node), (node.ast_node, node)
